@@ -47,9 +47,18 @@ CALL_LIMIT = 30
 
 
 # ----------------------------------------------------------------------------- running
+_KEEP = []
+
+
 def two_runs(invoke, seed):
     outs, touched = [], None
     for k, (g1, g2) in enumerate(((1001, 2002), (3003, 4004))):
+        if k == 1:
+            # the second run builds its arguments at other addresses (objects of varying number kept alive in between): a result that
+            # depends on the iteration order of a set of identity-hashed objects is not a function of the arguments and the generator state
+            del _KEEP[:]
+            _KEEP.append([dendropy.Taxon(label="pad") for _ in range(1 + (seed * 7) % 53)])
+            _KEEP.append([object() for _ in range((seed * 13) % 101)])
         GLOBAL_RNG.seed(g1)
         _random.seed(g2)
         rng = _random.Random(seed)
@@ -156,6 +165,8 @@ def ns_make(variant, N):
         labels = []
     elif variant == "tlabels":
         labels = ["T2", "T1", "T4"]
+    elif variant == "tlower":
+        labels = ["t2", "t1", "t4"]   # the labels the simulators generate (T1, T2, ...) differ from these in case only: still the same labels to the namespace
     elif variant == "renamed":
         # a namespace with a history: T3 was looked up by label and has been renamed since (the simulators name new taxa T1, T2, ...)
         ns = dendropy.TaxonNamespace(["T1", "T2", "T3"])
@@ -166,7 +177,7 @@ def ns_make(variant, N):
     return dendropy.TaxonNamespace(labels)
 
 
-NS_VARIANTS = ["none", "exact", "bigger", "smaller", "empty", "tlabels", "renamed"]
+NS_VARIANTS = ["none", "exact", "bigger", "smaller", "empty", "tlabels", "renamed", "tlower"]
 
 
 # ----------------------------------------------------------------------------- kind: bd
@@ -368,15 +379,19 @@ def _contained_args(cfg):
 
 def eval_contained(cfg, seed):
     name = "contained_coalescent_tree"
-    sp, m, kw = _contained_args(cfg)  # the SAME argument objects in both runs (the function does not modify them)
+    built = []
 
     def invoke(rng):
+        # every run builds its own (equal) arguments, at other addresses: equal arguments and equal generator states, identical trees
+        sp, m, kw = _contained_args(cfg)
+        built.append((sp, m))
         return treesim.contained_coalescent_tree(sp, m, rng=rng, **kw)
 
     outs, touched = two_runs(invoke, seed)
     fails, gtree = common_monitors(name, outs, touched, T.tree_dump)
     if gtree is None:
         return fails
+    sp, m = built[0]   # (the tree handed back by common_monitors is the first run's)
     nsp = len(T.leaves(sp._seed_node))
     gene_tree_monitors(name, gtree, sp, cfg["sp"], sum(genes_list(cfg["genes"], nsp)), fails)
     if gtree.taxon_namespace is not m.domain_taxon_namespace:
@@ -403,13 +418,24 @@ def eval_containing(cfg, seed):
         leaf_of = dict((l.taxon, l) for l in T.leaves(ct._seed_node))
         species_of = lambda g: leaf_of[new_map[g.taxon]]
 
+    built = []
+
     def invoke(rng):
-        return ct.simulate_contained_kingman(rng=rng, **kw)
+        if cfg.get("remap"):
+            return ct.simulate_contained_kingman(rng=rng, **kw)
+        # every run builds its own (equal) arguments: equal arguments and equal generator states must give identical trees
+        sp2, m2, kw2 = _contained_args(cfg)
+        ct2 = reconcile.ContainingTree(containing_tree=sp2, contained_taxon_namespace=m2.domain_taxon_namespace,
+                                       contained_to_containing_taxon_map=m2, fit_containing_edge_lengths=False)
+        built.append((sp2, m2, ct2))
+        return ct2.simulate_contained_kingman(rng=rng, **kw2)
 
     outs, touched = two_runs(invoke, seed)
     fails, gtree = common_monitors(name, outs, touched, T.tree_dump)
     if gtree is None:
         return fails
+    if built:
+        sp, m, ct = built[0]
     nsp = len(T.leaves(sp._seed_node))
     gene_tree_monitors(name, gtree, ct, cfg["sp"], sum(genes_list(cfg["genes"], nsp)), fails, species_of=species_of)
     return fails
